@@ -11,6 +11,8 @@ DOMAINS = {
     "intfmt": {"letter": "I", "header_tokens": 6},
     "queue": {"letter": "Q", "header_tokens": 2},
     "regs": {"letter": "R", "header_tokens": 2},
+    "heap": {"letter": "H", "header_tokens": 3},
+    "lexer": {"letter": "L", "header_tokens": 3},
 }
 
 PROPS = {
@@ -57,6 +59,26 @@ PROPS = {
     },
 }
 
+PROPS["C13"] = {
+    "module": "ScpiVerif.Props.C13",
+    "domains": [{"name": "lexer", "cfgs": ["A"]}],
+    "clauses": ["C13."],
+    "level": "proof",
+    "trusted_base": [KERNEL, CORR, PLATFORM, "Spec/Tokens.lean + Spec/Unit.lean: the 488.2 section 7 token grammar as regular expressions (Brzozowski derivatives), block and string rules stated directly, with the leniencies listed in DESIGN.md section 9"],
+    "assumptions": ["Model/Lexer.lean and Model/Parser.lean transcribe lexer.c and the program-data / unit layer of parser.c; `!iseos && p(pos[0])` is fused into one primitive",
+                    "character classes are those of the C locale"],
+    "rule": "cases = (buffer bytes, start offset); every string up to length 4 (quick) / 5 (thorough) over 24 class representatives, random strings up to 9 over a wider alphabet (0x00, 0x80, 0xFF included) at every offset, concatenations of grammar fragments, long tokens; every recogniser, the data-element parser, the data-list parser and the unit detector run on each; exact-size buffer without NUL under ASan; non-trivial = non-empty buffer",
+}
+PROPS["C20"] = {
+    "module": "ScpiVerif.Props.C20",
+    "domains": [{"name": "heap", "cfgs": ["B"]}],
+    "clauses": ["C20."],
+    "level": "proof",
+    "trusted_base": [KERNEL, CORR + " (configuration B, exact-size heap block under ASan; internal wr/count and final heap bytes compared)", PLATFORM],
+    "assumptions": ["Model/Heap.lean transcribes scpiheap_strndup/get_parts/free and the queue layer of error.c in configuration B", "pushed texts are C strings (no embedded NUL); an empty text is no text"],
+    "rule": "cases = (queue capacity, heap size, history of pushes with texts / SYST:ERR? / clear / count); all histories up to length 5 (quick) / 6 (thorough) over a 9-letter alphabet on a grid of capacities and heap sizes 2..12, random histories up to 150 operations on heaps of 0..60 bytes; non-trivial = at least two operations",
+}
+
 NOT_CLAIMED = {}
 
 _T = {
@@ -73,9 +95,15 @@ _T = {
             "Lean kernel + standard axioms; translator for errs[] and register tables; correspondence as C11 plus one push per error code",
             "Lean 4 theorems over generated class table and register model + differential correspondence"),
 }
+_T["C13"] = ("Theorems per recogniser: the model of each scpiLex_* function consumes exactly the longest prefix in the token language of Spec/Tokens.lean (or nothing, restoring the cursor, except the documented incomplete-block swallow), stays inside its input, and reports type/extent/length of what it consumed; detectUnit accepts exactly the well-formed units of Spec/Unit.lean.",
+            "Lean kernel + standard axioms; the token grammar in Spec/ is a transcription of IEEE 488.2 section 7 with the documented leniencies; model tied to lexer.c/parser.c by exhaustive short strings and directed long ones under ASan",
+            "Lean 4 theorems (recogniser = longest match of a regular-expression spec) + differential correspondence")
+_T["C20"] = ("Theorems text_intact_or_absent / empty_means_reusable / fits_means_stored over the model of the circular string heap and the queue on top of it, for every heap size, capacity and history.",
+            "Lean kernel + standard axioms; model tied to utils.c/error.c (configuration B) by exhaustive short and random long histories comparing internal heap state",
+            "Lean 4 invariant proof (circular heap) + differential correspondence")
 for _k, (_a, _b, _c) in _T.items():
     PROPS[_k]["level_text"], PROPS[_k]["level_note"], PROPS[_k]["technique"] = _a, _b, _c
 
 # properties whose theorem module is not complete yet are not claimed
-for _k in ():
+for _k in ("C13", "C20"):
     PROPS[_k]["unclaimed"] = True
